@@ -298,6 +298,10 @@ func (tb *TB) Eq(a, b *Term) *Term {
 			return tb.F
 		}
 	}
+	// Eq(x | c, k) is false when k lacks a bit of c
+	if b.IsConst() && a.Op == OpBOr && a.Args[1].IsConst() && (b.Val&a.Args[1].Val) != a.Args[1].Val {
+		return tb.F
+	}
 	// Eq(concat(parts), const): split into per-part equalities when any part is const
 	if b.IsConst() && a.Op == OpConcat {
 		var cs []*Term
